@@ -81,6 +81,14 @@ def run(ctx):
     for k in range(len(bom) + 1):
         add(bom[:k], "byte-order mark prefix")
     add("\xff\xfef\x00i\x00n\x00d\x00", "byte-order mark prefix")
+    # every BYTE prefix (not only token prefixes) of sources that use every multi-character construct of the lexer: block and line comments, both quote styles with
+    # escapes, regex literals, two-character operators; each prefix also followed by a NUL (which ends the source)
+    for full in ("find all 'a' --( note )-- 'b\\x41\\'' -- line\n@/x(y)\\/[a-z]/ \"s\\\"t\" = v1",
+                 "--( header )--\nset f to transform if 1 <= 2 then return match >= 'a' end return 1 != 2 end\nreplace all 'a' with f",
+                 "find all @/a{2,3}(?<n>b)\\k<n>/ --(c)-- in 'a' to 'z', digit"):
+        for k in range(len(full) + 1):
+            add(full[:k], "byte prefix")
+            add(full[:k] + "\x00 tail", "byte prefix")
     # process expressions cut short by a statement keyword: the expression parser runs on a token slice that ends where the statement ends
     # (no EOF token behind it), so every look-ahead must stop there
     etoks = ["-", "+", "*", "/", "%", "==", "!=", "<", ">", "<=", ">=", "and", "or", "not", "head", "tail", "(", ")", "1", "x", "'s'", "true", "match"]
